@@ -36,6 +36,12 @@ func anyOp(condition, data any) (bool, error) {
 	case []immutable.Option[float64]:
 		return anySlice(condition, t)
 
+	case []float32:
+		return anySlice(condition, t)
+
+	case []immutable.Option[float32]:
+		return anySlice(condition, t)
+
 	default:
 		return false, nil
 	}
